@@ -275,7 +275,9 @@ class CompositeTransform(BaseTransform):
     def forward(self, x):
         x = copy_array(x, xp=self.xp)
         x = self.xp.atleast_2d(x)
-        log_abs_det_jacobian = self.xp.zeros(len(x), device=self.device)
+        log_abs_det_jacobian = self.xp.zeros(
+            len(x), device=self.device, dtype=x.dtype
+        )
         if self.periodic_parameters:
             y, log_j_periodic = self._periodic_transform.forward(
                 x[..., self.periodic_mask]
@@ -298,7 +300,9 @@ class CompositeTransform(BaseTransform):
     def inverse(self, x):
         x = copy_array(x, xp=self.xp)
         x = self.xp.atleast_2d(x)
-        log_abs_det_jacobian = self.xp.zeros(len(x), device=self.device)
+        log_abs_det_jacobian = self.xp.zeros(
+            len(x), device=self.device, dtype=x.dtype
+        )
         if self.affine_transform:
             x, log_j_affine = self._affine_transform.inverse(x)
             log_abs_det_jacobian += log_j_affine
@@ -633,7 +637,7 @@ class AffineTransform(BaseTransform):
             )
         y = (x - self._mean) / self._std
         return y, self.log_abs_det_jacobian * self.xp.ones(
-            y.shape[0], device=get_device(y)
+            y.shape[0], device=get_device(y), dtype=y.dtype
         )
 
     def inverse(self, y):
@@ -644,7 +648,7 @@ class AffineTransform(BaseTransform):
             )
         x = y * self._std + self._mean
         return x, -self.log_abs_det_jacobian * self.xp.ones(
-            y.shape[0], device=get_device(y)
+            y.shape[0], device=get_device(y), dtype=y.dtype
         )
 
     def config_dict(self):
